@@ -24,6 +24,14 @@
  *                                          when cpl >= 0] [+ OV_ECTL_LOWPASS_SET lowpass_kHz unless '-'] + setup_init.  After success pipeline 2 with
  *                                          the signal 'broadband noise, quiet then loud (one transient)'; ns <= 0: 3*blocksizes[1] samples.
  *                                          Reports geo=<template>/<blocksizes>/<floor n>/<residue type.grouping.begin-end>, blk=<long/short blocks>, lpr=<lowpass/Nyquist>
+ *   B <path> <ch> <rate> <pl> <ns> <stride>   bitrate scaling family (managed set-ups): every triple built by ROLES from v = p*ch, p in the per-channel
+ *                                          alphabet PERCH (every boundary of every template's per-channel bitrate table, the values just outside the table ends, -1, 0, 1, ...)
+ *                                          (+ the neighbours v-1, v+1 as nominal-only requests) and from the absolute values ABSV (2^31-1 .. LONG_MAX, LONG_MIN;
+ *                                          64-bit saturating arithmetic), so that the
+ *                                          template lookup (stage one) succeeds for channel counts only vorbis_encode_setup_init (stage two) refuses.
+ *                                          path 0 = vorbis_encode_init, 1 = setup_managed + setup_init, 2+k = setup_managed + request SCTL[k] + setup_init.
+ *                                          The pipeline pl runs on every <stride>-th successful set-up of the line (the others are set up and cleared).
+ *                                          (S 1 accepts the same path numbers: one explicit tuple.)
  *   T                                      print the tables (rates, qualities, ops, bases) as one line of JSON-ish text
  * output: <idx> ok n=<set-ups> cls=<class>*<count>,...  succ=<ch>/<template>*<count>,.. st=<hash>:<ops>,.. leak=<desc>*<bytes>,.. bad=<kind>@<desc>;..
  * A non-empty bad= is a property violation on that tuple.  */
@@ -48,6 +56,37 @@ static void init_quals(void){
 static const long BITR[7]={-1,0,1,8000,64000,256000,2147483647L};
 #define NTRI 343
 static const long MRATES[8]={-1,1,8000,16000,32000,44100,96000,2147483647L};
+/* bitrate scaling family: per-channel bitrate alphabet = every entry of every rate_mapping table of lib/modes/setup_*.h (a snapshot: a stale entry only
+   thins the coverage, nothing is judged from it), the value just outside each end of each table, and -1, 0, 1, 2, 4000, 300000 */
+static const long PERCH[]={-1,0,1,2,4000,5999,6000,7999,8000,9000,11999,12000,13000,13999,14000,14999,15000,15999,16000,17999,18000,20000,22499,22500,28000,
+  29999,30000,31999,32000,32001,35000,38000,40000,42000,42001,44000,44001,45000,46000,48000,50000,50001,52000,54000,56000,60000,64000,70000,72000,75000,78000,
+  80000,86000,86001,90000,90001,92000,96000,100000,100001,110000,112000,115000,120000,128000,140000,150000,160000,180000,190000,190001,240000,240001,240002,
+  250000,250001,250002,300000};
+#define NPERCH ((int)(sizeof(PERCH)/sizeof(PERCH[0])))
+static const long ABSV[]={2147483647L,2147483648L,4294967296L,LONG_MAX/2,LONG_MAX/2+1,LONG_MAX,LONG_MIN};
+#define NABSV ((int)(sizeof(ABSV)/sizeof(ABSV[0])))
+static const long PSEL[]={16000,32000,64000,128000,200000};      /* per-channel nominal values combined with an absolute max / min (roles 8, 9) */
+#define NPSEL ((int)(sizeof(PSEL)/sizeof(PSEL[0])))
+#define NROLES 8
+static const char *const ROLENAMES[]={"(-1,v,-1)","(v,v,v)","(2v,v,v/2)","(v,-1,-1)","(-1,-1,v)","(v+v/2,-1,v/2)","(0,v,0)","(v,-1,v)","(abs,v,-1)","(-1,v,abs)"};
+static long smul(long a,long b){ long r; if(__builtin_mul_overflow(a,b,&r))return ((a<0)!=(b<0))?LONG_MIN:LONG_MAX; return r; }
+static long sadd(long a,long b){ long r; if(__builtin_add_overflow(a,b,&r))return a<0?LONG_MIN:LONG_MAX; return r; }
+static void role_triple(int role,long v,long *mx,long *nom,long *mn){
+  switch(role){
+  case 0: *mx=-1; *nom=v; *mn=-1; break;
+  case 1: *mx=v; *nom=v; *mn=v; break;
+  case 2: *mx=smul(v,2); *nom=v; *mn=v/2; break;
+  case 3: *mx=v; *nom=-1; *mn=-1; break;
+  case 4: *mx=-1; *nom=-1; *mn=v; break;
+  case 5: *mx=sadd(v,v/2); *nom=-1; *mn=v/2; break;
+  case 6: *mx=0; *nom=v; *mn=0; break;
+  default: *mx=v; *nom=-1; *mn=v; break;
+  }
+}
+/* requests issued between setup_managed and setup_init on paths 2.. (indices into OPS resolved by name at start-up) */
+static const char *const SCTLNAMES[]={"RM2_SET(NULL)","RM2_SET(typ)","CP_SET(0)","LP_SET(20)"};
+#define NSCTL 4
+static int SCTL[NSCTL];
 
 /* ctl request alphabet */
 enum { AK_RM=1, AK_RM2, AK_DBL, AK_INT, AK_NULL, AK_BLOB, AK_VINULL };
@@ -323,11 +362,24 @@ done:
 typedef struct { cset cls,succ,leak,enc; sbuf bad,st; long n; } acc;
 static void acc_bad(acc *A,const char *kind,const char *desc){ sb_add(&A->bad,"%s%s@%s",A->bad.n?";":"",kind,desc); }
 
-/* one VBR / managed set-up tuple */
+/* classification only (never judged): which stage of the equivalent two-step set-up refuses the tuple a one-step call refused.
+   *r2 = 1 when setup_init was not called.  Runs on its own vorbis_info with the allocation accounting switched off. */
+static void stage_probe(int managed,long ch,long rate,float q,long mx,long nom,long mn,int *r1,int *r2){
+  vorbis_info p; int on=wa_on; wa_on=0;
+  vorbis_info_init(&p);
+  *r1=managed?vorbis_encode_setup_managed(&p,ch,rate,mx,nom,mn):vorbis_encode_setup_vbr(&p,ch,rate,q);
+  *r2=(*r1==0)?vorbis_encode_setup_init(&p):1;
+  vorbis_info_clear(&p);
+  wa_on=on;
+}
+static int do_ctl(vorbis_info *vi,const ctlop *op);
+static long g_stride=1,g_succ_in_line=0;     /* B lines: the pipeline runs on every g_stride-th successful set-up of the line */
+/* one VBR / managed set-up tuple.  path 0 = one-step call, 1 = setup_* + setup_init, 2+k (managed) = setup_managed + request SCTL[k] + setup_init */
 static void one_setup(acc *A,int managed,int path,long ch,long rate,float q,long mx,long nom,long mn,int pl,long ns){
-  vorbis_info vi; int r1=0,r2=0,rc; char desc[200],cls[200],tl[64],qb[32],kind[120],pb[120]; long base; const char *fn1,*fn;
+  vorbis_info vi; int r1=0,r2=0,rc; char desc[240],cls[240],tl[64],qb[32],kind[120],pb[120]; long base; const char *fn1,*fn;
   if(managed)snprintf(desc,sizeof(desc),"managed:p%d:ch=%ld:rate=%ld:max=%ld:nom=%ld:min=%ld",path,ch,rate,mx,nom,mn);
   else snprintf(desc,sizeof(desc),"vbr:p%d:ch=%ld:rate=%ld:q=%s",path,ch,rate,qname(q,qb));
+  if(path>=2){ size_t dl=strlen(desc); if(!managed||path-2>=NSCTL){ acc_bad(A,"BADCASE_path",desc); return; } snprintf(desc+dl,sizeof(desc)-dl,":req=%s",SCTLNAMES[path-2]); }
   if(pl>=10){ size_t dl=strlen(desc); snprintf(desc+dl,sizeof(desc)-dl,":pl=%d:sig=%s",pl,pl-10<NSIG?SIGNAMES[pl-10]:"?"); }
   fn1=managed?"setup_managed":"setup_vbr"; fn=managed?"init":"init_vbr";
   g_ord=A->n; snprintf(g_desc,sizeof(g_desc),"%s",desc);
@@ -340,25 +392,38 @@ static void one_setup(acc *A,int managed,int path,long ch,long rate,float q,long
     rc=managed?vorbis_encode_init(&vi,ch,rate,mx,nom,mn):vorbis_encode_init_vbr(&vi,ch,rate,q);
     if(!documented(rc)){ snprintf(kind,sizeof(kind),"undocumented_rc:%s:%d",fn,rc); acc_bad(A,kind,desc); }
     if(rc!=0&&!info_is_zero(&vi)){ snprintf(kind,sizeof(kind),"info_not_cleared_after_failure:%s:%d",fn,rc); acc_bad(A,kind,desc); }
+    /* "cleared" is what vorbis_info_clear does: the set-up storage is released, not just forgotten (judged only when the struct is all-zero:
+       otherwise the line above has already reported it and the storage is still reachable) */
+    if(rc!=0&&info_is_zero(&vi)&&wa_live_bytes!=base){ snprintf(kind,sizeof(kind),"setup_storage_not_released_after_failure:%s:%d",fn,rc); acc_bad(A,kind,desc); }
     if(rc==0&&vi.codec_setup)tmpl_label(((codec_setup_info*)vi.codec_setup)->hi.setup,tl);
-    snprintf(cls,sizeof(cls),"%s:%s:%d:%s",managed?"M":"V",fn,rc,tl);
+    if(rc!=0){
+      int p1,p2; stage_probe(managed,ch,rate,q,mx,nom,mn,&p1,&p2);
+      if(p1==0)snprintf(cls,sizeof(cls),"%s:%s:%d:probe_%s:0:probe_setup_init:%d:%s",managed?"M":"V",fn,rc,fn1,p2,tl);
+      else snprintf(cls,sizeof(cls),"%s:%s:%d:probe_%s:%d:%s",managed?"M":"V",fn,rc,fn1,p1,tl);
+    }else snprintf(cls,sizeof(cls),"%s:%s:%d:%s",managed?"M":"V",fn,rc,tl);
   }else{
+    int rq=1; size_t k;
     r1=managed?vorbis_encode_setup_managed(&vi,ch,rate,mx,nom,mn):vorbis_encode_setup_vbr(&vi,ch,rate,q);
     if(!documented(r1)){ snprintf(kind,sizeof(kind),"undocumented_rc:%s:%d",fn1,r1); acc_bad(A,kind,desc); }
+    k=snprintf(cls,sizeof(cls),"%s:%s:%d",managed?"M":"V",fn1,r1);
+    if(path>=2&&r1==0){       /* a request only in the documented order: after a successful setup_managed, before setup_init */
+      rq=do_ctl(&vi,&OPS[SCTL[path-2]]); k+=snprintf(cls+k,sizeof(cls)-k,":ctl_%s:%d",SCTLNAMES[path-2],rq);
+      if(!(rq==0||rq==OV_EINVAL||rq==OV_EIMPL)){ snprintf(kind,sizeof(kind),"undocumented_rc:ctl_%s:%d",SCTLNAMES[path-2],rq); acc_bad(A,kind,desc); }
+    }
     tmpl_label(((codec_setup_info*)vi.codec_setup)->hi.setup,tl);
     /* setup_init is documented for use after a successful setup_*; after a failed one the header promises OV_EINVAL, so it is called too */
     r2=vorbis_encode_setup_init(&vi);
     if(!documented(r2)){ snprintf(kind,sizeof(kind),"undocumented_rc:setup_init:%d",r2); acc_bad(A,kind,desc); }
     rc=r1?r1:r2;
     if(r1&&r2==0){ snprintf(kind,sizeof(kind),"setup_init_succeeds_after_failed_%s:%d",fn1,r1); acc_bad(A,kind,desc); rc=0; }
-    snprintf(cls,sizeof(cls),"%s:%s:%d:setup_init:%d:%s",managed?"M":"V",fn1,r1,r2,tl);
+    snprintf(cls+k,sizeof(cls)-k,":setup_init:%d:%s",r2,tl);
   }
   cs_add(&A->cls,cls,1);
   if(rc==0){
     char sk[100];
     if(vi.channels!=ch||vi.rate!=rate){ snprintf(kind,sizeof(kind),"request_not_echoed:%s:ch%d_rate%ld",path?"setup_init":fn,vi.channels,vi.rate); acc_bad(A,kind,desc); }
     snprintf(sk,sizeof(sk),"%ld/%s/%s",ch,managed?"M":"V",tl); cs_add(&A->succ,sk,1);
-    if(pl>0){
+    if(pl>0&&(g_succ_in_line++%g_stride)==0){
       encstat es={0,0,0,0,0,0};
       pipeline(&vi,ch,rate,pl,ns,pb,sizeof(pb),&es);
       if(pb[0]){ snprintf(kind,sizeof(kind),"after_success:%s",pb); acc_bad(A,kind,desc); }
@@ -554,6 +619,11 @@ static void print_tables(void){
   printf("],\"mrates\":["); for(i=0;i<8;i++)printf("%s%ld",i?",":"",MRATES[i]);
   printf("],\"ops\":["); for(i=0;i<NOPS;i++)printf("%s[%d,\"%s\",%d]",i?",":"",OPS[i].number,OPS[i].name,is_set_request(OPS[i].number)&&OPS[i].ak!=AK_VINULL);
   printf("],\"signals\":["); for(i=0;i<NSIG;i++)printf("%s\"%s\"",i?",":"",SIGNAMES[i]);
+  printf("],\"perch\":["); for(i=0;i<NPERCH;i++)printf("%s%ld",i?",":"",PERCH[i]);
+  printf("],\"absv\":["); for(i=0;i<NABSV;i++)printf("%s%ld",i?",":"",ABSV[i]);
+  printf("],\"psel\":["); for(i=0;i<NPSEL;i++)printf("%s%ld",i?",":"",PSEL[i]);
+  printf("],\"roles\":["); for(i=0;i<NROLES+2;i++)printf("%s\"%s\"",i?",":"",ROLENAMES[i]);
+  printf("],\"sctl\":["); for(i=0;i<NSCTL;i++)printf("%s\"%s\"",i?",":"",SCTLNAMES[i]);
   printf("],\"bases\":["); for(i=0;i<NBASES;i++)printf("%s\"%s\"",i?",":"",BASES[i].name);
   printf("]}\n");
 }
@@ -561,6 +631,7 @@ static void print_tables(void){
 int main(int argc,char **argv){
   const char *cases=NULL; int i; FILE *cf; char *line=NULL; size_t lcap=0; int timeout=300;
   init_quals(); init_ops();
+  { int a,b; for(a=0;a<NSCTL;a++){ SCTL[a]=-1; for(b=0;b<NOPS;b++)if(!strcmp(OPS[b].name,SCTLNAMES[a]))SCTL[a]=b; if(SCTL[a]<0)return 2; } }
   for(i=1;i<argc;i++){ if(!strcmp(argv[i],"--cases"))cases=argv[++i]; else if(!strcmp(argv[i],"--timeout"))timeout=atoi(argv[++i]); else if(!strcmp(argv[i],"--tables")){ print_tables(); return 0; } }
   if(!cases)return 2;
   cf=fopen(cases,"r"); if(!cf)return 2;
@@ -575,7 +646,7 @@ int main(int argc,char **argv){
     while((tok=strtok_r(NULL," \n",&sv))&&nv<40){ ts[nv]=tok; v[nv++]=atol(tok); }
     memset(&it,0,sizeof(it)); it.it_value.tv_sec=timeout; setitimer(ITIMER_PROF,&it,NULL);
     g_nskip=0; g_ord=-1; g_desc[0]=0;
-    { int fixed=(mode=='C'&&nv>=6)?6+(int)v[5]:(mode=='S'?(nv>0&&v[0]?9:7):(mode=='L'?8:6)); int k; for(k=fixed;k<nv&&g_nskip<16;k++)g_skip[g_nskip++]=v[k]; }
+    { int fixed=(mode=='C'&&nv>=6)?6+(int)v[5]:(mode=='S'?(nv>0&&v[0]?9:7):(mode=='L'?8:6)); int k; g_stride=1; g_succ_in_line=0; for(k=fixed;k<nv&&g_nskip<16;k++)g_skip[g_nskip++]=v[k]; }
     if(mode=='G'&&nv>=6){
       int path=v[0],ri,qi; long ch=v[1];
       for(ri=0;ri<NRATES;ri++){ if(v[2]>=0&&v[2]!=ri)continue;
@@ -590,6 +661,21 @@ int main(int argc,char **argv){
       /* explicit tuple: S 0 <path> <ch> <rate> <qi> <pl> <ns>   |   S 1 <path> <ch> <rate> <max> <nominal> <min> <pl> <ns> */
       if(v[0]==0){ if(v[4]<0||v[4]>=NQUALS){ printf("%ld BADCASE\n",idx); fflush(stdout); continue; } one_setup(&A,0,v[1],v[2],v[3],QUALS[v[4]],0,0,0,v[5],v[6]); }
       else one_setup(&A,1,v[1],v[2],v[3],0,v[4],v[5],v[6],v[7],v[8]);
+    }else if(mode=='B'&&nv>=6){
+      /* bitrate scaling family: v = p*ch (and the absolute values) through every role; roles 8/9: an absolute max / min beside a scaled nominal */
+      int path=v[0],pi,ai,role; long ch=v[1],rate=v[2],mx,nom,mn;
+      g_stride=v[5]>0?v[5]:1;
+      for(pi=0;pi<NPERCH+NABSV;pi++){
+        long val=pi<NPERCH?smul(PERCH[pi],ch):ABSV[pi-NPERCH];
+        for(role=0;role<NROLES;role++){ role_triple(role,val,&mx,&nom,&mn); one_setup(&A,1,path,ch,rate,0,mx,nom,mn,v[3],v[4]); }
+        /* the neighbours of the scaled value (total bitrate +-1: per-channel value a fraction 1/ch off the table entry), nominal only */
+        if(pi<NPERCH&&ch!=0){ one_setup(&A,1,path,ch,rate,0,-1,sadd(val,-1),-1,v[3],v[4]); one_setup(&A,1,path,ch,rate,0,-1,sadd(val,1),-1,v[3],v[4]); }
+      }
+      for(ai=0;ai<NABSV;ai++)for(pi=0;pi<NPSEL;pi++){
+        long val=smul(PSEL[pi],ch);
+        one_setup(&A,1,path,ch,rate,0,ABSV[ai],val,-1,v[3],v[4]);
+        one_setup(&A,1,path,ch,rate,0,-1,val,ABSV[ai],v[3],v[4]);
+      }
     }else if(mode=='L'&&nv>=8){
       int has_lp=strcmp(ts[6],"-")!=0;
       one_geom(&A,v[0]!=0,v[1]!=0,v[2],v[3],v[0]?0.f:strtof(ts[4],NULL),v[0]?v[4]:0,(int)v[5],has_lp,has_lp?strtod(ts[6],NULL):0.,v[7],&geo,&blk,&lpr);
